@@ -147,6 +147,22 @@ PROPS = {
                         "two-writer interleavings (schedule-quantified)"],
         "assumptions": COMMON_ASSUMPTIONS + ["POSIX: rename is atomic, mkstemp names are unique"],
     },
+    "C18": {
+        "technique": TECH + "; spelling independence by complete enumeration over statements x spellings "
+                     "(differential compilation with the real compiler)",
+        "level_text": "The namespace-scope stack of ElementParser is proved to be pushed by start tags only "
+                      "and left untouched (length and contents) by empty tags, so declarations never reach "
+                      "siblings; every statement compiles to identical code in the default, renamed-prefix "
+                      "(declared on self or ancestor) and data-attribute spellings, and no emitted literal "
+                      "contains template-language markup (complete over the statement catalogue).",
+        "level_note": "parse_tag is an assumed contract (frame: it mutates only the map it is given). "
+                      "Enumeration is complete for 15 statements x 4 spellings, not for all documents.",
+        "units": [K("parser.py::ElementParser.visit_empty_tag"), K("parser.py::ElementParser.visit_start_tag"),
+                  U('pyvc.spelling', 'unit', 'spelling', needs_k3=True)],
+        "not_decided": ["unpack_attributes / convert_data_attributes / prepare_attributes drop clause (K1, in progress)",
+                        "namespace-element form (<tal:block>)"],
+        "assumptions": COMMON_ASSUMPTIONS + ["assumed contract: parser.parse_tag (frame)"],
+    },
     "C19": k3prop(
         "Non-strict compilation is proved (on the emitted code) to raise the original ExpressionError, "
         "with the invalid expression's token and position, if and only if rendering reaches it; strict "
